@@ -1149,7 +1149,7 @@ def unembedding_by_attribute_only(repo, rep):
                             'sites' % n)
 
 
-def path_attached_after_properties(repo, rep):
+def path_attached_after_properties(repo, rep, rid='C04.R13'):
     """C04.R13: the decoder attaches the decoded instance path to an
     instance after it has filled in the properties.  CIMInstance.__setitem__
     still propagates the value of a key property into the keybinding of the
@@ -1160,7 +1160,7 @@ def path_attached_after_properties(repo, rep):
     ModifyInstance) - another instance is modified, or NOT_FOUND instead of
     INVALID_PARAMETER."""
     from ..cfg import CFG
-    r13 = rep.rule('C04.R13', 'decoded instances get their path after their '
+    r13 = rep.rule(rid, 'decoded instances get their path after their '
                    'properties')
     tp = repo.cls('pywbem/_tupleparse.py', 'TupleParser')
     n = 0
